@@ -686,6 +686,25 @@ Proof.
   - unfold truthful_count. cbn [a_status a_model a_costs a_count]. auto.
 Qed.
 
+(* the three modes together *)
+Theorem truthful_thm :
+  (forall n P path stream, decision_stream_ok n P stream ->
+     exists ans, read_answer (with_header path (render_decision stream)) = Some ans /\
+                 truthful_decision n P ans) /\
+  (forall n P c path stream, optim_stream_ok n P c stream ->
+     exists ans, read_answer (with_header path (render_optim stream)) = Some ans /\
+                 truthful_optim n P c ans /\
+                 a_costs ans = map r_weight (filter is_sat_result stream)) /\
+  (forall n P path nb, nb = count_models n (fun m => sat_problem m P) ->
+     exists ans, read_answer (with_header path (render_count nb)) = Some ans /\
+                 truthful_count n P ans).
+Proof.
+  split; [exact truthful_decision_thm|]. split; [|exact truthful_count_thm].
+  intros n P c path stream H.
+  destruct (truthful_optim_thm n P c path stream H) as [ans [H1 [H2 [H3 _]]]].
+  exists ans. split; [exact H1|]. split; [exact H2|exact H3].
+Qed.
+
 (* ------------------------------------------------------------------ *)
 (* H. dispatch.                                                        *)
 
